@@ -27,8 +27,8 @@ def peak_harnesses():
                      "MF_CAP": 3 * ch * fw + 4, "MF_MAXIO": 3 * ch * 8, "MF_NFILES": 2, "LIBSNDFILE_VERIF_BUFFER_LEN": 16}
                 out.append(H("peak.%s.%s.ch%d" % (tag, t, ch), "C18/peak.c", link=["common"], stubs=["psf_log_printf", "psf_memset"], defines=d,
                              unwind=10, unwindset=["psf_fwrite.0:%d" % (3 * ch * 8 + 1), "psf_memset.0:65"] + ["main.%d:%d" % (i, 3 * ch * fw + 2) for i in range(12)],
-                             checks="mem", solver="cadical", include_env=("log_stub", "memfile", "memset_model", "libm_model"), timeout=400,
-                             tiers=("quick", "thorough") if (t in ("int", "float") or (tag == "double64" and t == "double")) else ("thorough",),
+                             checks="mem", solver="cadical", include_env=("log_stub", "memfile", "memset_model", "libm_model"), timeout=2400,
+                             tiers=("quick", "thorough") if ((tag == "float32" and t == "float") or (tag == "double64" and t == "double")) else ("thorough",),
                              functions=[init, "%s_peak_update" % tag, "host_write_%s2%s" % (t[0], ft[0])],
                              bounds="<= 3 frames, %d channel(s), staging buffer 16 bytes (the write crosses staging boundaries), arbitrary prior peak state, split point symbolic, all sample values" % ch))
     return out
